@@ -201,7 +201,7 @@ func (rc *restartCtx) stopAndRestart(clean bool) bool {
 	// scripts are all-or-nothing
 	for _, a := range w.actors {
 		for _, op := range a.ops {
-			if len(op.Cmd.Inner) > 1 && op.name() == "eval" && op.Cmd.Tag != "steps" {
+			if len(op.Cmd.Inner) > 1 && (op.name() == "eval" || op.name() == "evalsha") && op.Cmd.Tag != "steps" {
 				c := 0
 				for _, in := range op.Cmd.Inner {
 					if inFile[strings.Join(in, "\x00")] > 0 {
@@ -274,7 +274,7 @@ func runC03(w *World) {
 				case x < 3:
 					p = append(p, hookCmd(r, g))
 				case x < 5:
-					p = append(p, scriptCmd(r, g))
+					p = appendScript(p, r, scriptCmd(r, g))
 				default:
 					c := g.cmd(r)
 					for withShrink && (strings.HasPrefix(strings.ToUpper(c.Args[0]), "RENAME") || strings.ToUpper(c.Args[0]) == "JDEL") {
